@@ -189,6 +189,17 @@ impl<'o> Hist<'o> {
                     if !self.failed {
                         self.check_invariants();
                     }
+                    // with an empty free list nothing above the new cursor can be in use any more: an
+                    // allocation from the rewound position must start at or after data_offset and leave
+                    // the reserved prefix and header alone
+                    if !self.failed && self.model.list.is_empty() && self.rng.bool() {
+                        let via = *self.rng.pick(&alive);
+                        let n = *self.rng.pick(&[1u32, 8, 16, 40]);
+                        self.do_alloc(Req::Bytes(n), 0, false, via);
+                        if !self.failed {
+                            self.check_invariants();
+                        }
+                    }
                     if !self.failed {
                         self.do_clear();
                     }
@@ -449,6 +460,7 @@ pub fn child_main(args: &Args) -> i32 {
     let knobs = Knobs::for_prop(&prop);
     let mut out = Out::new();
     install_panic_capture();
+    rarena_allocator::verif_hooks::install(Some(seq_hook_before), None, None);
     let t0 = std::time::Instant::now();
     let budget = args.u64("secs", 3600);
     let idxs: Vec<u64> = if args.has("only") {
